@@ -44,6 +44,7 @@ WRITERS = {
     'PCBO.__init__': (G3, "constructor / copy constructor"),
     'PCBO.update': ({'_constraints'}, "merges the constraints of another PCBO"),
     'PCBO._append_constraint': ({'_constraints'}, "records a constraint"),
+    'PCSO._append_constraint': ({'_constraints'}, "records a constraint (PCSO's copy of the PCBO helper; R03.5 requires it to delegate to or equal PCBO's)"),
     'PCBO._pop_constraint': ({'_constraints'}, "removes the record of a nested constraint"),
     'PCBO._next_ancilla': ({'_ancilla'}, "takes the next ancilla name"),
     'PCBO.__round__': ({'_constraints'}, "derived model keeps the constraints"),
@@ -176,8 +177,9 @@ def rules(ctx):
                         if (src(gen.target), 'not in', '%s._variables' % selfn) in compare_atoms(c, True):
                             guarded = True
         gcf = cfg_of(fn.node)
+        from ..astutil import expand_names
         for t, pol, o in gcf.edge_dominators(enclosing_stmt(node)):
-            if (lab, 'not in', '%s._variables' % selfn) in compare_atoms(t, pol):
+            if (lab, 'not in', '%s._variables' % selfn) in compare_atoms(expand_names(fn.node, t), pol):
                 guarded = True
         ok = bool(mate) and guarded
         ctx.inst('R14.3', fn, node, ok,
